@@ -43,6 +43,7 @@ type RSeg struct {
 	Multi   bool      `json:"multi"`   // gzip: multistream mode (default true in the library)
 	Members bool      `json:"members"` // gzip: Multistream(false) and Reset on the same source for every member
 	Hdr     bool      `json:"hdr"`     // compare the gzip header fields with the encoder's
+	SameSrc bool      `json:"samesrc"` // the source is the very object of the previous segment, re-targeted at this stream (bytes.Reader.Reset, strings.Reader.Reset)
 
 	srcObj io.Reader
 	ss     *schedSource
@@ -301,6 +302,7 @@ type rrec struct {
 	given   int
 	dead    bool // the next error event carries dead = TRUE
 	lastErr string
+	lastRaw string // the text of the first corrupt-input error of the segment (C13 compares it between a fresh and a reset Reader)
 }
 
 func (r *rrec) flush() {
@@ -589,6 +591,7 @@ func execReaderCase(c *RCase, arch int, emit func(interface{})) {
 		memberBase, memberOut := 0, 0
 		for m := 0; m < nmem; m++ {
 			rec.given = 0
+			rec.lastRaw = ""
 			mdata := data
 			morc := orc
 			if seg.Members && m > 0 {
@@ -642,7 +645,23 @@ func execReaderCase(c *RCase, arch int, emit func(interface{})) {
 			var src io.Reader
 			var ss *schedSource
 			var rest func() int
-			if !(seg.Members && m > 0) {
+			if seg.SameSrc && si > 0 && !(seg.Members && m > 0) {
+				switch o := c.Segs[si-1].srcObj.(type) {
+				case *bytes.Reader:
+					o.Reset(mdata)
+					src, ss, rest, b.Exact = o, nil, o.Len, true
+				case *strings.Reader:
+					o.Reset(string(mdata))
+					src, ss, rest, b.Exact = o, nil, o.Len, true
+				}
+				if src != nil {
+					seg.srcObj, seg.ss, seg.rest, seg.exact = src, ss, rest, b.Exact
+					prevRest = nil // the harness itself has just re-targeted the earlier source
+				}
+			}
+			if src != nil {
+				// (the previous segment's object, re-targeted)
+			} else if !(seg.Members && m > 0) {
 				src, ss, rest, b.Exact = callerSource(seg.Src, mdata, rec)
 				seg.srcObj, seg.ss, seg.rest, seg.exact = src, ss, rest, b.Exact
 			} else {
@@ -768,6 +787,9 @@ func execReaderCase(c *RCase, arch int, emit func(interface{})) {
 						ok = false
 					}
 					cls, det := errClassR(rerr, ss)
+					if cls == "corrupt" && rec.lastRaw == "" {
+						rec.lastRaw = rerr.Error()
+					}
 					if cls == "corrupt" && morc.RefVerdict == "uxeof" && morc.StdVerdict == "uxeof" && memberBase == 0 {
 						// both oracles ran out of input; "corrupt" is only wrong if the bytes can be completed
 						if !provablyCompletable(c.Kind, data, dict, origin) {
@@ -808,6 +830,10 @@ func execReaderCase(c *RCase, arch int, emit func(interface{})) {
 			}
 			rec.flush()
 			e := REvent{Ev: "End", Case: c.ID, Seg: si, Digest: hex.EncodeToString(h.Sum(nil))[:16], HdrOK: true, WantRest: -1}
+			if strings.HasPrefix(c.GClause, "C13.") && c.Impl != "std" {
+				// "equivalent to a new Reader" includes what a corrupt-input error says (its offset)
+				e.Digest += "|" + rec.lastRaw
+			}
 			if rest != nil {
 				e.Rest = rest()
 				if morc.RefVerdict == "eof" {
